@@ -28,6 +28,9 @@ def run_check(pid, tier, prog=None, quiet=False):
         err = "RecursionError: %s" % e
     except Exception as e:  # a traceback must never look like a verdict
         err = "internal error: %s: %s\n%s" % (type(e).__name__, e, traceback.format_exc(limit=6))
+    if ctx.anchor_errors:
+        ae = "AnalysisError: anchor(s) vanished / idiom not recognised: " + " | ".join(ctx.anchor_errors[:6])
+        err = ae if err is None else err + " ; " + ae
     return ctx, err
 
 
